@@ -852,6 +852,9 @@ NEIGHBORS = {
     'B': ('127.0.0.3', '127.0.0.1', 65000, 65002, '1.2.3.4', True),
     'C': ('127.0.0.4', '127.0.0.9', 65010, 65001, '9.9.9.9', True),
     'D': ('127.0.0.5', '127.0.0.1', 65000, 65001, '1.2.3.4', False),  # configured, but not for this API process
+    # every field of E is the textual EXTENSION of the matching field of A (127.0.0.2 -> 127.0.0.20, 65001 -> 650010 ...):
+    # a selector term must match a whole field, not a prefix of its text
+    'E': ('127.0.0.20', '127.0.0.10', 650000, 650010, '1.2.3.40', True),
 }
 KEYS = ('local-ip', 'local-as', 'peer-as', 'router-id')
 
@@ -1103,7 +1106,7 @@ def h_group_mode(ctx, version):
     info = {'lines': lines, 'replies': terms, 'changed': diff, 'api-version': version}
     ctx.check('one-terminal-reply-per-line', len(terms) == len(lines) and all(len(t) == 1 for t in terms),
               sig='C14:sideeffect:group-mode:replies', info=info)
-    want = ['A', 'B', 'C'] if with_good else []
+    want = sorted(k for k, v in NEIGHBORS.items() if v[5]) if with_good else []   # every neighbor attached to the process
     ctx.check('only-valid-lines-have-effect', diff == want, sig='C14:sideeffect:group-mode:%s' % ('invalid-line-changed-state' if not with_good else 'wrong-neighbors'), info=info)
     ctx.check('group-state-released', not c_grp._GROUP_BUFFERS, sig='C14:sideeffect:group-mode:buffer-left', info=info)
     ctx.cover('group-mode')
@@ -1173,7 +1176,7 @@ def selector_verdict(ctx, syntax, action, alternatives, version):
     if not want:
         shape = 'no-match'
         ctx.cover('selector-no-match')
-    elif len(want) == 3:
+    elif len(want) == sum(1 for v in NEIGHBORS.values() if v[5]):
         shape = 'all-match'
         ctx.cover('selector-all-match')
     else:
